@@ -237,6 +237,10 @@ template <class Value> void HashedSearch<Value>::InitializeFromARPA(const char *
 
   PositiveProbWarn warn(config.positive_log_probability);
   Read1Grams(f, counts[0], vocab, unigram_.Raw(), warn);
+  // As in ReadNGrams: the sign bit is on, indicating the unigram does not extend left, until a bigram says
+  // otherwise.  Most already have this but there might be +0.0 (lmplz writes 0 for <s>).
+  // <= because <unk> takes an extra slot when the file does not list it.
+  for (uint64_t i = 0; i <= counts[0]; ++i) util::SetSign(unigram_.Raw()[i].prob);
   CheckSpecials(config, vocab);
   DispatchBuild(f, counts, config, vocab, warn);
 }
